@@ -62,6 +62,7 @@ func (k *c09) RunCase(c *core.Ctx, i int) {
 	o.Perf = r.Intn(2) == 0
 	o.SelfBook = r.Intn(5) == 0
 	o.Unicode = r.Intn(2) == 0
+	o.Depth1 = r.Intn(4) == 0
 	j, info := gen.Accepted(r, o)
 	// tag accrued transactions, add multi-line descriptions
 	acr := 0
